@@ -446,10 +446,62 @@ Proof.
   apply le64_inj in Hv; auto. destruct (qc_sig_part_inj _ _ I1 I2 He) as (A & B & C). auto.
 Qed.
 
+(* ---------- framed multi-signature bytes determine every entry ---------- *)
+Definition entries_ok (l : list (rid * bytes)) : Prop :=
+  Forall (fun e : rid * bytes => N.of_nat (length (snd e)) < 2^32) l.
+
+Lemma framed_inj l1 l2 : entries_ok l1 -> entries_ok l2 -> length l1 = length l2 ->
+  framed l1 = framed l2 -> map snd l1 = map snd l2.
+Proof.
+  revert l2. induction l1 as [|[i a] l IH]; intros [|[j b] m] F1 F2 Hl He; try discriminate; auto.
+  unfold framed in He. cbn [map concat snd] in He. fold (framed l) in He. fold (framed m) in He.
+  inversion F1 as [|? ? Ha Fl]; inversion F2 as [|? ? Hb Fm]; subst. cbn [snd] in Ha, Hb.
+  rewrite <- !app_assoc in He.
+  apply app_inv_len in He as [Hn He]; [|unfold le32; now rewrite !le_bytes_length].
+  apply le32_inj in Hn; auto. apply Nat2N.inj in Hn.
+  apply app_inv_len in He as [Hab He]; auto.
+  cbn [map snd]. f_equal; [exact Hab|]. apply IH; auto.
+Qed.
+
+Lemma entries_eq (l1 l2 : list (rid * bytes)) : map fst l1 = map fst l2 -> map snd l1 = map snd l2 -> l1 = l2.
+Proof.
+  revert l2. induction l1 as [|[i a] l IH]; intros [|[j b] m] Hf Hs; try discriminate; auto.
+  cbn [map fst snd] in Hf, Hs. injection Hf as -> Hf. injection Hs as -> Hs. f_equal. now apply IH.
+Qed.
+
+(* two multi-signatures with the same ToBytes and the same participants have the same entries *)
+Lemma multi_entries_inj s1 s2 :
+  sig_is_multi s1 = true -> sig_is_multi s2 = true ->
+  entries_ok (sig_entries s1) -> entries_ok (sig_entries s2) ->
+  sig_raw s1 = sig_raw s2 -> sig_ids s1 = sig_ids s2 -> sig_entries s1 = sig_entries s2.
+Proof.
+  intros M1 M2 E1 E2 Hr Hi.
+  assert (H1 : sig_raw s1 = framed (sig_entries s1) /\ sig_ids s1 = map fst (sig_entries s1)) by (destruct s1; try discriminate; auto).
+  assert (H2 : sig_raw s2 = framed (sig_entries s2) /\ sig_ids s2 = map fst (sig_entries s2)) by (destruct s2; try discriminate; auto).
+  destruct H1 as [R1 I1], H2 as [R2 I2]. rewrite R1, R2 in Hr. rewrite I1, I2 in Hi.
+  apply entries_eq; auto. apply framed_inj; auto.
+  apply (f_equal (@length rid)) in Hi. now rewrite !map_length in Hi.
+Qed.
+
 Lemma ts_nanos_lt t : ts_nanos t < 2^64.
 Proof.
   unfold ts_nanos. pose proof (Z.mod_pos_bound (fst t * 10 ^ 9 + snd t) (2^64)%Z ltac:(reflexivity)) as Hb.
   change (2^64) with (Z.to_N (2^64)%Z). apply Z2N.inj_lt; lia.
+Qed.
+
+(* equal certificate bytes of two multi-signature certificates: the same (signer, signature) entries,
+   hence - with view and hash - the same certificate up to the scheme tag *)
+Theorem qc_bytes_name_entries q1 q2 :
+  length (qc_hash q1) = 32%nat -> length (qc_hash q2) = 32%nat ->
+  qc_view q1 < 2^64 -> qc_view q2 < 2^64 -> ids_ok (qc_sig q1) -> ids_ok (qc_sig q2) ->
+  sig_is_multi (qc_sig q1) = true -> sig_is_multi (qc_sig q2) = true ->
+  entries_ok (sig_entries (qc_sig q1)) -> entries_ok (sig_entries (qc_sig q2)) ->
+  qc_bytes q1 = qc_bytes q2 ->
+  qc_view q1 = qc_view q2 /\ qc_hash q1 = qc_hash q2 /\ sig_entries (qc_sig q1) = sig_entries (qc_sig q2).
+Proof.
+  intros H1 H2 V1 V2 I1 I2 M1 M2 E1 E2 He.
+  destruct (qc_bytes_inj q1 q2 H1 H2 V1 V2 I1 I2 He) as (Hv & Hh & _ & Hr & Hi).
+  repeat split; auto. now apply multi_entries_inj.
 Qed.
 
 (* two blocks with the same bytes agree on parent, proposer, view (fixed-width prefix) *)
@@ -542,6 +594,21 @@ Lemma unframed_block_bytes_refuted :
     block_bytes b1 <> block_bytes b2.
 Proof.
   exists shift_b1, shift_b2. repeat split; try (vm_compute; reflexivity); vm_compute; discriminate.
+Qed.
+
+(* before the per-signature length prefix, the same signers could carry the same bytes cut elsewhere *)
+Definition part_b1 : block :=
+  mkBlock (repeat 0 32) 1 [] (mkQC (SigECDSA [(1, [7]); (2, [8]); (3, [9])]) 1 (repeat 0 32)) 2 (0, 0)%Z.
+Definition part_b2 : block :=
+  mkBlock (repeat 0 32) 1 [] (mkQC (SigECDSA [(1, [7; 8]); (2, []); (3, [9])]) 1 (repeat 0 32)) 2 (0, 0)%Z.
+Lemma unframed_signature_bytes_refuted :
+  exists b1 b2, wf_block (fun _ => None) b1 = true /\ wf_block (fun _ => None) b2 = true /\
+    block_bytes_v2 b1 = block_bytes_v2 b2 /\
+    sig_ids (qc_sig (b_cert b1)) = sig_ids (qc_sig (b_cert b2)) /\
+    sig_entries (qc_sig (b_cert b1)) <> sig_entries (qc_sig (b_cert b2)) /\
+    block_bytes b1 <> block_bytes b2.
+Proof.
+  exists part_b1, part_b2. repeat split; try (vm_compute; reflexivity); vm_compute; discriminate.
 Qed.
 
 (* a block fetched by hash carries the certificate signers of the block that hash names *)
